@@ -201,20 +201,137 @@ theorem find?_mem_names (B : List (String × SymKey)) (s : String) (b : SymKey) 
     · simp only [find?_cons, hn, if_false] at h
       simp [ih h]
 
-/-- the tickets of a run: each key with its ticket, tickets pairwise different and issued within (c, c'] -/
+/-- the stream after fallback, from the stream names alone -/
+def effN (cfg : Cfg) (names : List String) (s : String) : Option String :=
+  if s ∈ names then some s else if cfg.fallback ∈ names then some cfg.fallback else none
+
+theorem find?_isSome_iff_mem (B : List (String × SymKey)) (s : String) : (find? s B).isSome = true ↔ s ∈ B.map (·.1) := by
+  constructor
+  · intro h
+    obtain ⟨b, hb⟩ := Option.isSome_iff_exists.mp h
+    exact find?_mem_names B s b hb
+  · exact find?_isSome_of_mem_names B s
+
+theorem effOf_effN (cfg : Cfg) (B : List (String × SymKey)) (s : String) :
+    (effOf cfg B s).map (·.1) = effN cfg (B.map (·.1)) s := by
+  unfold effOf effN
+  cases h1 : find? s B with
+  | some k =>
+    have : s ∈ B.map (·.1) := (find?_isSome_iff_mem B s).mp (by simp [h1])
+    simp [this]
+  | none =>
+    have hs : ¬ s ∈ B.map (·.1) := fun hm => by
+      have := (find?_isSome_iff_mem B s).mpr hm
+      simp [h1] at this
+    cases h2 : find? cfg.fallback B with
+    | some k =>
+      have : cfg.fallback ∈ B.map (·.1) := (find?_isSome_iff_mem B _).mp (by simp [h2])
+      simp only [hs, if_false, this, if_true, Option.map]
+    | none =>
+      have hf : ¬ cfg.fallback ∈ B.map (·.1) := fun hm => by
+        have := (find?_isSome_iff_mem B _).mpr hm
+        simp [h2] at this
+      simp only [hs, hf, if_false, Option.map]
+
+/-- the counters after a program, from the stream names alone (mirrors `specProg`) -/
+def specCnt (cfg : Cfg) : Prog → List String → Path → Counts → Counts
+  | .done, _, _, c => c
+  | .draw s rest, names, π, c =>
+    match effN cfg names s with
+    | some s' => specCnt cfg rest names π (bump c π s')
+    | none => c
+  | .sub n body rest, names, π, c => specCnt cfg rest names π (specCnt cfg body names (π ++ [n]) c)
+  | .jit body rest, names, π, c => specCnt cfg rest names π (specCnt cfg body names π (bumpAll c π names))
+
+/-- the tickets of the keys a program hands out, in order (mirrors `specProg`) -/
+def specTk (cfg : Cfg) : Prog → List String → Path → Counts → List Ticket
+  | .done, _, _, _ => []
+  | .draw s rest, names, π, c =>
+    match effN cfg names s with
+    | some s' => (π, s', c π s' + 1) :: specTk cfg rest names π (bump c π s')
+    | none => []
+  | .sub n body rest, names, π, c =>
+    specTk cfg body names (π ++ [n]) c ++ specTk cfg rest names π (specCnt cfg body names (π ++ [n]) c)
+  | .jit body rest, names, π, c =>
+    specTk cfg body names π (bumpAll c π names) ++ specTk cfg rest names π (specCnt cfg body names π (bumpAll c π names))
+
+theorem specProg_cnt (cfg : Cfg) : ∀ (p : Prog) (B : List (String × SymKey)) (rel π : Path) (c : Counts)
+    (ks : List SymKey) (c' : Counts), specProg cfg p B rel π c = .ok (ks, c') → c' = specCnt cfg p (B.map (·.1)) π c := by
+  intro p
+  induction p with
+  | done =>
+    intro B rel π c ks c' h
+    simp only [specProg, Except.ok.injEq, Prod.mk.injEq] at h
+    exact h.2.symm
+  | draw st rest ih =>
+    intro B rel π c ks c' h
+    simp only [specProg] at h
+    have hn := effOf_effN cfg B st
+    cases he : effOf cfg B st with
+    | none => simp [he] at h
+    | some sk =>
+      obtain ⟨s', k⟩ := sk
+      simp only [he] at h hn
+      cases hr : specProg cfg rest B rel π (bump c π s') with
+      | error e => simp [hr] at h
+      | ok r =>
+        obtain ⟨ks1, c1⟩ := r
+        simp only [hr, Except.ok.injEq, Prod.mk.injEq] at h
+        obtain ⟨_, rfl⟩ := h
+        simp only [specCnt, ← hn, Option.map]
+        exact ih B rel π _ ks1 c1 hr
+  | sub n body rest ihb ihr =>
+    intro B rel π c ks c' h
+    simp only [specProg] at h
+    cases hb : specProg cfg body B (rel ++ [n]) (π ++ [n]) c with
+    | error e => simp [hb] at h
+    | ok r =>
+      obtain ⟨k1, c1⟩ := r
+      simp only [hb] at h
+      cases hr : specProg cfg rest B rel π c1 with
+      | error e => simp [hr] at h
+      | ok r2 =>
+        obtain ⟨k2, c2⟩ := r2
+        simp only [hr, Except.ok.injEq, Prod.mk.injEq] at h
+        obtain ⟨_, rfl⟩ := h
+        simp only [specCnt]
+        rw [← ihb B _ _ c k1 c1 hb]
+        exact ihr B rel π c1 k2 c2 hr
+  | jit body rest ihb ihr =>
+    intro B rel π c ks c' h
+    simp only [specProg] at h
+    cases hb : specProg cfg body (forkBases cfg.sep B rel π c) [] π (bumpAll c π (B.map (·.1))) with
+    | error e => simp [hb] at h
+    | ok r =>
+      obtain ⟨k1, c1⟩ := r
+      simp only [hb] at h
+      cases hr : specProg cfg rest B rel π c1 with
+      | error e => simp [hr] at h
+      | ok r2 =>
+        obtain ⟨k2, c2⟩ := r2
+        simp only [hr, Except.ok.injEq, Prod.mk.injEq] at h
+        obtain ⟨_, rfl⟩ := h
+        simp only [specCnt]
+        have := ihb _ _ _ _ k1 c1 hb
+        rw [forkBases_names] at this
+        rw [← this]
+        exact ihr B rel π c1 k2 c2 hr
+
+/-- the tickets of a run: each key with its ticket, tickets pairwise different and issued within (c, c'], and they are `specTk` -/
 theorem specProg_tickets (cfg : Cfg) (hsep : cfg.sep = true) (seeds : List (String × SymKey)) :
     ∀ (p : Prog) (B : List (String × SymKey)) (rel π0 π : Path) (c : Counts) (ks : List SymKey) (c' : Counts),
       π = π0 ++ rel → specProg cfg p B rel π c = .ok (ks, c') → GoodB seeds B π0 → NamesOK rel → NamesOK p.names →
       (∀ π' s, c' π' s < 256) →
       ∃ kts : List (SymKey × Ticket), kts.map (·.1) = ks ∧ (∀ q ∈ kts, Tk seeds q.1 q.2) ∧ (kts.map (·.2)).Nodup ∧
-        ∀ t ∈ kts.map (·.2), c t.1 t.2.1 < t.2.2 ∧ t.2.2 ≤ c' t.1 t.2.1 := by
+        (∀ t ∈ kts.map (·.2), c t.1 t.2.1 < t.2.2 ∧ t.2.2 ≤ c' t.1 t.2.1) ∧
+        kts.map (·.2) = specTk cfg p (B.map (·.1)) π c := by
   intro p
   induction p with
   | done =>
     intro B rel π0 π c ks c' _ h _ _ _ _
     simp only [specProg, Except.ok.injEq, Prod.mk.injEq] at h
     obtain ⟨rfl, rfl⟩ := h
-    exact ⟨[], rfl, by simp, by simp, by simp⟩
+    exact ⟨[], rfl, by simp, by simp, by simp, rfl⟩
   | draw st rest ih =>
     intro B rel π0 π c ks c' hπ h hgood hrel hnames hb
     simp only [specProg] at h
@@ -229,12 +346,12 @@ theorem specProg_tickets (cfg : Cfg) (hsep : cfg.sep = true) (seeds : List (Stri
         obtain ⟨ks1, c1⟩ := r
         simp only [hr, Except.ok.injEq, Prod.mk.injEq] at h
         obtain ⟨rfl, rfl⟩ := h
-        obtain ⟨kts, hk1, hk2, hk3, hk4⟩ := ih B rel π0 π _ ks1 c1 hπ hr hgood hrel hnames hb
+        obtain ⟨kts, hk1, hk2, hk3, hk4, hk5⟩ := ih B rel π0 π _ ks1 c1 hπ hr hgood hrel hnames hb
         obtain ⟨k0, hk0, hbase⟩ := hgood s' k (effOf_find cfg B st s' k he)
         have hmono := (specProg_bounds cfg rest B rel π _ ks1 c1 hr π s').1
         have hbump : bump c π s' π s' = c π s' + 1 := by simp [bump]
         have hlt := hb π s'
-        refine ⟨(keyAt cfg.sep k rel (c π s' + 1), (π, s', c π s' + 1)) :: kts, by simp [hk1], ?_, ?_, ?_⟩
+        refine ⟨(keyAt cfg.sep k rel (c π s' + 1), (π, s', c π s' + 1)) :: kts, by simp [hk1], ?_, ?_, ?_, ?_⟩
         · intro q hq
           rcases List.mem_cons.mp hq with rfl | hq
           · exact ⟨k0, π0, rel, k, hk0, hbase, hπ, by rw [hsep], hrel, by show 1 ≤ c π s' + 1; omega, by show c π s' + 1 < 256; omega⟩
@@ -252,6 +369,10 @@ theorem specProg_tickets (cfg : Cfg) (hsep : cfg.sep = true) (seeds : List (Stri
           · have h1 := hk4 t ht
             have h2 := bump_le c π s' t.1 t.2.1
             omega
+        · have hn := effOf_effN cfg B st
+          rw [he] at hn
+          simp only [Option.map] at hn
+          simp only [List.map_cons, specTk, ← hn, hk5]
   | sub n body rest ihb ihr =>
     intro B rel π0 π c ks c' hπ h hgood hrel hnames hb
     simp only [specProg] at h
@@ -274,12 +395,12 @@ theorem specProg_tickets (cfg : Cfg) (hsep : cfg.sep = true) (seeds : List (Stri
           · simp only [List.mem_singleton] at hm
             subst hm
             exact hnames m (by simp [Prog.names])
-        obtain ⟨kt1, ha1, ha2, ha3, ha4⟩ := ihb B (rel ++ [n]) π0 (π ++ [n]) c k1 c1 (by rw [hπ, List.append_assoc]) hbd hgood hrel'
+        obtain ⟨kt1, ha1, ha2, ha3, ha4, ha5⟩ := ihb B (rel ++ [n]) π0 (π ++ [n]) c k1 c1 (by rw [hπ, List.append_assoc]) hbd hgood hrel'
           (fun m hm => hnames m (by simp [Prog.names, hm])) (fun π' s => Nat.lt_of_le_of_lt (hmono2 π' s).1 (hb π' s))
-        obtain ⟨kt2, hb1, hb2, hb3, hb4⟩ := ihr B rel π0 π c1 k2 c2 hπ hr hgood hrel
+        obtain ⟨kt2, hb1, hb2, hb3, hb4, hb5⟩ := ihr B rel π0 π c1 k2 c2 hπ hr hgood hrel
           (fun m hm => hnames m (by simp [Prog.names, hm])) hb
         have hmono1 := specProg_bounds cfg body B (rel ++ [n]) (π ++ [n]) c k1 c1 hbd
-        refine ⟨kt1 ++ kt2, by simp [ha1, hb1], ?_, ?_, ?_⟩
+        refine ⟨kt1 ++ kt2, by simp [ha1, hb1], ?_, ?_, ?_, ?_⟩
         · intro q hq
           rcases List.mem_append.mp hq with hq | hq
           · exact ha2 q hq
@@ -300,6 +421,8 @@ theorem specProg_tickets (cfg : Cfg) (hsep : cfg.sep = true) (seeds : List (Stri
           · have h1 := hb4 t ht
             have h2 := (hmono1 t.1 t.2.1).1
             omega
+        · rw [List.map_append, ha5, hb5, specProg_cnt cfg body B _ _ c k1 c1 hbd]
+          simp only [specTk]
   | jit body rest ihb ihr =>
     intro B rel π0 π c ks c' hπ h hgood hrel hnames hb
     simp only [specProg] at h
@@ -331,11 +454,11 @@ theorem specProg_tickets (cfg : Cfg) (hsep : cfg.sep = true) (seeds : List (Stri
             have h3 := (hmono2 π s).1
             have h4 := hb π s
             omega
-        obtain ⟨kt1, ha1, ha2, ha3, ha4⟩ := ihb _ [] π π _ k1 c1 (by simp) hbd hgood' (by intro m hm; simp at hm)
+        obtain ⟨kt1, ha1, ha2, ha3, ha4, ha5⟩ := ihb _ [] π π _ k1 c1 (by simp) hbd hgood' (by intro m hm; simp at hm)
           (fun m hm => hnames m (by simp [Prog.names, hm])) (fun π' s => Nat.lt_of_le_of_lt (hmono2 π' s).1 (hb π' s))
-        obtain ⟨kt2, hb1, hb2, hb3, hb4⟩ := ihr B rel π0 π c1 k2 c2 hπ hr hgood hrel
+        obtain ⟨kt2, hb1, hb2, hb3, hb4, hb5⟩ := ihr B rel π0 π c1 k2 c2 hπ hr hgood hrel
           (fun m hm => hnames m (by simp [Prog.names, hm])) hb
-        refine ⟨kt1 ++ kt2, by simp [ha1, hb1], ?_, ?_, ?_⟩
+        refine ⟨kt1 ++ kt2, by simp [ha1, hb1], ?_, ?_, ?_, ?_⟩
         · intro q hq
           rcases List.mem_append.mp hq with hq | hq
           · exact ha2 q hq
@@ -358,6 +481,10 @@ theorem specProg_tickets (cfg : Cfg) (hsep : cfg.sep = true) (seeds : List (Stri
             have h2 := (hmono1 t.1 t.2.1).1
             have h3 := (bumpAll_le c π (B.map (·.1)) t.1 t.2.1).1
             omega
+        · have hc1 := specProg_cnt cfg body _ _ _ _ k1 c1 hbd
+          rw [forkBases_names] at hc1 ha5
+          rw [List.map_append, ha5, hb5, hc1]
+          simp only [specTk]
 
 /-- **no reuse, `nn.jit` included** (reference semantics) -/
 theorem specProg_nodup (cfg : Cfg) (hsep : cfg.sep = true) (seeds : List (String × SymKey))
